@@ -421,6 +421,9 @@ func genC06Rest(c *Ctx, leaves []string, mv func() (int, int)) {
 		c06Pkt(c, t.String(), genVal(c, t, true).String(), m, v, tr)
 	}
 
+	// G2. histories of Marshal / Builder calls, all packets observed at the end
+	c06HistGen(c)
+
 	// I. long non-ASCII strings: the VarInt prefix counts UTF-8 BYTES (the protocol's 32767 limit is in characters,
 	// up to 3 bytes each, and is not enforced by the library): byte lengths around 32767 and up to 3*32767
 	cjk, e2 := "e4b8ad", "c3a9"
